@@ -125,3 +125,9 @@ func VerifAddHTTP(ty *TypeDescriptor, f *FieldDescriptor, hms ...HttpMapping) {
 		ty.Struct().addHttpMappingField(f)
 	}
 }
+
+// VerifSetValueMapping attaches a value-mapping annotation the way handleAnnotation does (AnnoKindValueMapping).
+func VerifSetValueMapping(f *FieldDescriptor, vm ValueMapping, typ AnnoType) {
+	f.valueMapping = vm
+	f.valueMappingType = typ
+}
